@@ -108,6 +108,25 @@ def c01_meta(x=0, s="", w=""):
     return _compare([D(n=x, _source=s, _classification=w, _generated=datetime.datetime(2001, 2, 3, 4, 5, 6, 7, tzinfo=datetime.timezone(datetime.timedelta(hours=2))))])
 
 
+def c01_ignore_scope(x=0, s=""):
+    from flow.record import GroupedRecord, RecordDescriptor
+    from flow.record.base import ignore_fields_for_comparison
+
+    A = RecordDescriptor("c01/a", [("varint", "n"), ("string", "s")])
+    N = RecordDescriptor("c01/nest", [("record", "r")])
+    recs = [A(n=x, s=s), N(r=A(n=x + 1, s="in")), GroupedRecord("c01/grp", [A(n=x + 1, s="g")])]
+    before = [deep(r) for r in recs]
+    try:
+        with ignore_fields_for_comparison(["_generated"]):
+            back = _roundtrip(recs)
+    except UnicodeEncodeError:
+        return {"violates": False}
+    except Exception as e:
+        return {"violates": True, "detail": f"round trip inside an ignore scope raised {type(e).__name__}: {e}"}
+    after = [deep(r) for r in back]
+    return {"violates": after != before, "detail": None if after == before else "records written while fields are ignored for comparison come back different"}
+
+
 def c01_sequence(x=0):
     from flow.record import RecordDescriptor
 
@@ -196,4 +215,4 @@ def c01_sweep(seed=0, n=150):
     return {"violates": False, "cases": cases}
 
 
-CALLS = {"c01_value": c01_value, "c01_obs": c01_obs, "c01_keyword": c01_keyword, "c01_meta": c01_meta, "c01_sequence": c01_sequence, "c01_nested": c01_nested, "c01_grouped": c01_grouped, "c01_sweep": c01_sweep}
+CALLS = {"c01_ignore_scope": c01_ignore_scope, "c01_value": c01_value, "c01_obs": c01_obs, "c01_keyword": c01_keyword, "c01_meta": c01_meta, "c01_sequence": c01_sequence, "c01_nested": c01_nested, "c01_grouped": c01_grouped, "c01_sweep": c01_sweep}
